@@ -37,7 +37,7 @@ MANIFEST = {
 }
 MINE = {
     "C12": {"untranslated", "error", "chain"},
-    "C14": {"sa", "sawf", "error"},
+    "C14": {"sa", "sawf", "error", "chain"},
 }
 OBS_RE = re.compile(r'<<(\d+), "(\w+)">>')
 
@@ -155,6 +155,11 @@ def run(c, a):
                 d = dict(o)
                 d.update(mode="chain", value=val, id=base + len(more) + 1)
                 more.append(d)
+        elif o["root"]["service"] == "admin":
+            # chained key mapping a->b, b->c with both keys present: exactly one step each, nothing lost
+            d = dict(o)
+            d.update(mode="chain", id=base + len(more) + 1)
+            more.append(d)
     obligs = obligs + more
     # every obligation also with ONLY the translator under test configured (namespace translation without search-attribute
     # translation and vice versa are ordinary configurations; the other translator must not be what makes it work)
